@@ -397,6 +397,9 @@ class Model(Object):
         for attr in self.__dict__:
             if attr not in do_not_copy_by_ref:
                 new.__dict__[attr] = self.__dict__[attr]
+        # it doesn't make sense to retain the context of a copied model; drop it
+        # before building the copy so that nothing is recorded in the original's
+        new._contexts = []
         new.notes = deepcopy(self.notes)
         new.annotation = deepcopy(self.annotation)
         new._compartments = deepcopy(self._compartments)
